@@ -152,6 +152,9 @@ def compare_calculate(pr0, pr1, idx, factor, out, sig, tol_rel, kind):
     C = P.calculate
     t0, t1 = pr0.sys.types, pr1.sys.types
     n1 = len(t1)
+    # pairs of trace species: relative rounding grows with (largest pair density) / (pair density of the pair), see the cost check
+    pd = np.asarray(pr1.sys.density.pair.data[0], dtype=float)
+    damp = np.minimum(float(np.max(pd)) / np.maximum(pd, 1e-300), 1e12)
 
     def cmp(name, f0, f1, rel=tol_rel, mask=None, fac=1.0):
         for q1 in range(n1):
@@ -161,7 +164,7 @@ def compare_calculate(pr0, pr1, idx, factor, out, sig, tol_rel, kind):
                 m = np.ones(a.shape, dtype=bool) if mask is None else mask[q1][q2]
                 scale = float(np.max(np.abs(b[m]))) + 1.0 if np.any(m) else 1.0
                 with np.errstate(all='ignore'):
-                    bad = m & ~(np.abs(a - b) <= rel * scale)
+                    bad = m & ~(np.abs(a - b) <= rel * scale * damp[q1, q2])
                 if np.any(bad):
                     out.fail(sig + name, '%s of the transformed system differs from T(%s of the base system) for pair (%s,%s): %r vs %r [T=%s]' % (
                         name, name, t1[q1], t1[q2], float(np.ravel(a[bad])[0]), float(np.ravel(b[bad])[0]), kind))
@@ -238,11 +241,17 @@ class CostLevel(Sub):
             out.skipped = 'ill-conditioned'
             return out
         scale = float(np.max(np.abs(y0))) + float(np.max(np.abs(x0))) + 1e-6
-        tol = 1e-11 * amp * scale
+        # h_ab = H_ab / (rho_a rho_b): the rounding of H is relative to its largest entry, so a pair of trace species (pair density
+        # far below the largest one) carries a relative error larger by the ratio of the pair densities
+        pd = np.asarray(pr1.sys.density.pair.data[0], dtype=float)
+        damp = np.minimum(float(np.max(pd)) / np.maximum(pd, 1e-300), 1e12)
+        tol = 1e-11 * amp * scale * damp[None, :, :]
         want = embed(y0, idx, L)
-        dev = float(np.max(np.abs(y1 - want)))
-        out.info = {'cond': cond, 'dev_over_tol': dev / tol}
-        if dev > tol:
+        dev = float(np.max(np.abs(y1 - want) / tol))
+        out.info = {'cond': cond, 'dev_over_tol': dev}
+        if dev > 1.0:
+            tol = float(np.min(tol))
+            dev = float(np.max(np.abs(y1 - want)))
             q = np.unravel_index(int(np.argmax(np.abs(y1 - want))), y1.shape)
             out.fail(sig + 'cost-not-equivariant', 'cost_T(T x) differs from T cost(x) by %.3g (tolerance %.3g) at r-index %d pair (%s,%s) [T=%s]' % (
                 dev, tol, q[0], new['types'][q[1]], new['types'][q[2]], kind), idx_map=idx)
